@@ -22,11 +22,23 @@ class Disconnect(Exception):
 
 
 def _addr(line):
+    """address between the first '<' and the matching '>' ('>' inside a quoted string does not count)."""
     try:
-        i = line.index(b'<')
-        return line[i + 1:line.index(b'>', i)]
+        i = line.index(b'<') + 1
     except ValueError:
         return line
+    j, quoted = i, False
+    while j < len(line):
+        c = line[j:j + 1]
+        if c == b'\\' and quoted:
+            j += 2
+            continue
+        if c == b'"':
+            quoted = not quoted
+        elif c == b'>' and not quoted:
+            return line[i:j]
+        j += 1
+    return line[i:]
 
 
 class ScriptedPeer(object):
@@ -168,6 +180,7 @@ class ScriptedPeer(object):
                 if self.auth:
                     exts.append('AUTH PLAIN LOGIN')
                 exts.append('ENHANCEDSTATUSCODES')
+                exts.extend(getattr(self, 'extra_exts', []))
                 self._reply('ehlo', 'ehlo', None, multi=exts)
                 self.cur = None
             elif word == b'HELO':
@@ -248,15 +261,32 @@ class ScriptedPeer(object):
                 self._send(b'500 5.5.2 unknown\r\n')
 
     def _read_data(self):
-        lines = []
+        """raw message content up to the end-of-data line; bare CR / LF inside the content are kept as they are."""
         while True:
-            l = self._readline()
-            if l == b'.':
+            if self.buf.startswith(b'.\r\n'):
+                raw, self.buf = b'', self.buf[3:]
                 break
-            if l.startswith(b'.'):
-                l = l[1:]
-            lines.append(l + b'\r\n')
-        return b''.join(lines)
+            i = self.buf.find(b'\r\n.\r\n')
+            if i >= 0:
+                raw, self.buf = self.buf[:i + 2], self.buf[i + 5:]
+                break
+            try:
+                d = self.sock.recv(4096)
+            except Exception:
+                raise Disconnect()
+            if not d:
+                raise Disconnect()
+            self.buf += d
+        # undo dot-stuffing: a dot at the start of a line (after LF or at the very beginning)
+        out = bytearray()
+        at_line_start = True
+        for b in raw:
+            if at_line_start and b == 0x2e:
+                at_line_start = False
+                continue
+            out.append(b)
+            at_line_start = b == 0x0a
+        return bytes(out)
 
     # ---- truth for the oracle
     def accepted(self):
